@@ -281,5 +281,31 @@ def execute(trace, ctx):
             ctx.op(kind, "raised")
             ctx.violate(P, "access-raised", f"operation {op} raised {type(e).__name__}: {e}\n{traceback.format_exc()[-600:]}",
                         key=kind)
+    # the usual idiom `for residue in SystemGro(path)`: nothing but the iterator keeps the view alive
+    if len(trace["ops"]) % 3 == 0:
+        import gc
+        try:
+            it = iter(SystemGro(path))
+            got = []
+            for k, res in enumerate(it):
+                if k == 1:
+                    gc.collect()
+                got.append(res)
+                if len(got) > n:
+                    break
+        except Exception as e:
+            ctx.violate(P, "temporary-view-iteration", f"`for residue in SystemGro(path)` raised {type(e).__name__}: {e} after "
+                                                       f"{len(got)} of {n} residues")
+            got = None
+        if got is not None:
+            if len(got) != n:
+                ctx.violate(P, "temporary-view-iteration", f"`for residue in SystemGro(path)` yielded {len(got)} residues; the file has {n}")
+            else:
+                for k, res in enumerate(got):
+                    mm = residue_matches(res, expected[k])
+                    if mm:
+                        ctx.violate(P, "temporary-view-iteration", f"`for residue in SystemGro(path)`, item {k}: {mm}")
+                        break
+        ctx.probe("iterated_a_temporary_view")
     ctx.nontrivial = True
     del sg
